@@ -28,7 +28,8 @@ EmptyStore ==
     rtIdx |-> <<>>,   \* request id -> latest refresh-token id  (RefreshTokenRequestIDs)
     dev   |-> <<>>,   \* id -> [client, rid, req, scopes, aud, exp, ustate, present, inval]
     doidc |-> {},     \* device ids that have an OpenID Connect session row
-    par   |-> <<>> ]  \* id -> [client, exp, present, rtype, req, aud, redirSent]
+    par   |-> <<>>,   \* id -> [client, exp, present, rtype, req, aud, redirSent]
+    jti   |-> {} ]    \* identifiers of JWT assertions already accepted (BlacklistedJTIs)
 
 (* ---- authorize codes ------------------------------------------------- *)
 CreateAuthorizeCodeSession(S, k, row) == [S EXCEPT !.code = Put(@, k, row)]
@@ -94,4 +95,8 @@ GetDeviceCodeSession(S, d, contract) ==
 CreatePARSession(S, u, row) == [S EXCEPT !.par = Put(@, u, row)]
 GetPARSession(S, u) == IF Has(S.par, u) /\ S.par[u].present THEN "ok" ELSE "not_found"
 DeletePARSession(S, u) == IF Has(S.par, u) THEN [S EXCEPT !.par[u].present = FALSE] ELSE S
+
+(* ---- JWT assertion identifiers (ClientAssertionJWTValid / SetClientAssertionJWT, IsJWTUsed / MarkJWTUsedForTime) *)
+JTIKnown(S, j) == j \in S.jti
+MarkJTI(S, j) == [S EXCEPT !.jti = @ \cup {j}]     \* atomic mark-if-absent: the caller must have checked JTIKnown in the same step
 =============================================================================
